@@ -89,7 +89,9 @@ def normalise(j):
     present = {}
     for f in fns:
         present.setdefault(f['path'], []).append(f)
-    new = [f for f in fns if f['path'] not in kpaths and f['kind'] in ('fn', 'assoc')]
+    # trait impl items are reached through the impl table, never treated as extracted helpers
+    impl_items = {it['path'] for i in j.get('impls', []) if i.get('trait') for it in i.get('items', [])}
+    new = [f for f in fns if f['path'] not in kpaths and f['kind'] in ('fn', 'assoc') and f['path'] not in impl_items]
     missing = [k for k in known if k['path'] not in present and k['kind'] in ('fn', 'assoc')]
     # renames
     renamed = {}
